@@ -497,6 +497,23 @@ def scanAr (cfg : Cfg) (tr : Transport) (now : Nat) (arcount : Nat) :
     | .err _ => (do setRcode (RC "FORMERR"); pure none) s
     | .panic => (.panic, s)
 
+/-- `handle_message_with_context` from `context.received.mark()` on: the scan of the three record
+    sections, the end-of-message check, the opcode dispatch. Returns `send_response`. -/
+def scanAndDispatch (cfg : Cfg) (tr : Transport) (now : Nat) (an ns ar opcode : Nat)
+    (question : Option (WName × Nat × Nat)) (r1 : Reader.Reader) : M Bool :=
+  let r2 := Reader.setMark r1
+  match scanAnNs (an + ns) r2 with
+  | none => do setRcode (RC "FORMERR"); pure true
+  | some r3 => do
+    let st ← scanAr cfg tr now ar ar 0 { r := r3 }
+    match st with
+    | none => pure true
+    | some st' =>
+      if !Reader.atEom st'.r then do setRcode (RC "FORMERR"); pure true
+      else do
+        if opcode = 0 then handleQuery cfg question tr else setRcode (RC "NOTIMP")
+        pure true
+
 /-- `handle_message_with_context` -/
 def handleWithContext (cfg : Cfg) (tr : Transport) (now : Nat) (r0 : Reader.Reader) : M Bool := fun s =>
   -- returns `send_response`
@@ -529,19 +546,7 @@ def handleWithContext (cfg : Cfg) (tr : Transport) (now : Nat) (r0 : Reader.Read
       (do
         let okQ ← addQ
         if !okQ then pure true
-        else
-          let r2 := Reader.setMark r1
-          match scanAnNs (an + ns) r2 with
-          | none => do setRcode (RC "FORMERR"); pure true
-          | some r3 => do
-            let st ← scanAr cfg tr now ar ar 0 { r := r3 }
-            match st with
-            | none => pure true
-            | some st' =>
-              if !Reader.atEom st'.r then do setRcode (RC "FORMERR"); pure true
-              else do
-                if opcode = 0 then handleQuery cfg question tr else setRcode (RC "NOTIMP")
-                pure true) s
+        else scanAndDispatch cfg tr now an ns ar opcode question r1) s
   | _, _, _, _, _ => (.panic, s)
 
 /-- the MAC of the response TSIG (`sign_response` in `finish_with_mac`) -/
